@@ -1002,7 +1002,7 @@ def c09_r1(ctx: Ctx, rule):
             src = norm(it)
             filtered = any(isinstance(x, (ast.ListComp, ast.GeneratorExp)) and any(g2.ifs for g2 in x.generators) for x in ast.walk(it)) or any(
                 isinstance(x, ast.Call) and (call_name(x) == "filter" or (call_name(x) == "get_records" and (x.args or x.keywords)) or call_name(x) in ("set", "frozenset", "unique", "dict")) for x in ast.walk(it))
-            whole_graph = q != GR + ".graph_to_prov"
+            whole_graph = not q.startswith(GR + ".")  # graph_to_prov (and what it delegates to) filters inferred nodes on purpose: C14.R2 decides that filter
             res.ob("%s: for %s in %s: %s(%s) on every iteration: %s; source unfiltered: %s" % (short(q) if q.count(".") > 2 else q, loop.target.id, src[:60], call_name(adds[0]), loop.target.id, skip is None, not filtered))
             if whole_graph and skip is not None:
                 res.fail(rule.id, "record-skipped::%s::%s" % (q, loop.target.id), ctx.loc(q, loop),
